@@ -350,7 +350,13 @@ pub fn process<I: BufRead, O: Write>(
                     _ => break,
                 }
             } else {
-                let mut s = remaining.split("//").next().unwrap().splitn(2, "/*");
+                // A "//" that comes after a "/*" belongs to the block comment
+                let head = match (remaining.find("//"), remaining.find("/*")) {
+                    (Some(l), Some(b)) if b < l => remaining,
+                    (Some(l), _) => &remaining[..l],
+                    _ => remaining,
+                };
+                let mut s = head.splitn(2, "/*");
                 // Is there a string start before that point ?
                 let s2 = s.next().unwrap();
                 if !s2.starts_with("#include") && !asm {
